@@ -73,7 +73,11 @@ def run_case(case, ctx):
                 pr = (8 if rate != 8 else 4, (4, 4, -1), 'exhaustive') if int(case['id'].split(':')[1]) % 3 == 2 else None
                 if pr:
                     strata.add('converter-reused')
-                conv.convert_segy(src['path'], wname, rate, bs, reduce_iops=case['reduce_iops'], detection=det, window=(a, b, c, d), prerun=pr, mem_limit=mem)
+                # (window ordinals often come out of NumPy computations: every third window gives them as NumPy integers)
+                win = (a, b, c, d) if wi % 3 != 2 else (np.int64(a), np.int32(b), np.intp(c), np.int16(d))
+                if wi % 3 == 2:
+                    strata.add('window-ordinals:numpy-int')
+                conv.convert_segy(src['path'], wname, rate, bs, reduce_iops=case['reduce_iops'], detection=det, window=win, prerun=pr, mem_limit=mem)
             else:
                 conv.convert_cli_inproc(src['path'], wname, rate, conv.resolve_bs(rate, bs), reduce_iops=case['reduce_iops'], window=(a, b, c, d))
         except Exception as e:  # noqa
@@ -131,7 +135,7 @@ def run_case(case, ctx):
 def finalize(tier, cases, results, counters, strata):
     reasons = []
     need = ['win:il0:zero,xl0:zero', 'win:il0:zero,xl0:pos', 'win:il0:pos,xl0:zero', 'win:il0:pos,xl0:pos', 'reader:iops', 'reader:segyio',
-            'mode:thorough', 'mode:heuristic', 'mode:exhaustive', 'route:api', 'route:cli', 'upper:full', 'upper:inner', 'sorting:1', 'sorting:2', 'converter-reused', 'memory-fits-window-only']
+            'mode:thorough', 'mode:heuristic', 'mode:exhaustive', 'route:api', 'route:cli', 'upper:full', 'upper:inner', 'sorting:1', 'sorting:2', 'converter-reused', 'memory-fits-window-only', 'window-ordinals:numpy-int']
     for s in need:
         if s not in strata:
             reasons.append('required stratum not hit: ' + s)
